@@ -100,7 +100,7 @@ def run(ctx):
             # surplus arms: targets of bool switches on which size>max (or size>=max after the decrement) holds
             surplus = []
             for blk in h.blocks:
-                if blk.term.kind == 'switch' and (blk.term.j.get('dty') == 'bool' or blk.term.j.get('variants')):
+                if blk.term.kind == 'switch':
                     for lab, tgt in blk.term.switch_arms():
                         rel = cmp_relation(han, r, blk, lab)
                         if rel and rel[0] in ('size>max', 'size>=max'):
@@ -252,6 +252,7 @@ def run(ctx):
     mb = managed_bodies(prog)
     lk = lockers(prog, mb)
     n_regions = 0
+    afail = {}
     for b in mb:
         gl = guard_locals(b)
         if not gl:
@@ -311,6 +312,9 @@ def run(ctx):
                            construct='user-under-lock:%s:%s' % key)
                 continue
             ok = any(n.startswith(UNDER_LOCK_OK_PREFIX) for n in names) or (callee in prog.bodies and callee not in lk and _pure_local(prog, callee))
+            if not ok and blk.idx in afail.setdefault(b.path, preds.assertion_failure_blocks(b, ban)):
+                ctx.count('debug_assertion_failure_calls_under_lock')
+                continue          # the failure branch of a debug assertion (assumed to hold): not work done under the lock
             ctx.ob('R02.7', 'only queue / integer operations under the lock', ok, ctx.where(b, t.line),
                    'call of %s while the slots lock is held' % '/'.join(sorted(names)) if not ok else '',
                    construct='under-lock:%s:%s' % (b.name, '/'.join(sorted(names))))
@@ -334,10 +338,20 @@ def _assert_on_field(an, body, blk, fields):
     d = an.single_def(l)
     if d and d[0] == 'stmt' and d[3].rv.kind == 'bin':
         for op in d[3].rv.ops:
-            if op.kind != 'const':
+            # (through one or two plain copies: `_t = copy m.recycle_count; _r = AddWithOverflow(copy _t, 1)`)
+            for _ in range(3):
+                if op.kind == 'const':
+                    break
                 for f in op.place.fields():
                     if f in fields:
                         return True
+                if op.place.proj:
+                    break
+                d2 = an.single_def(op.place.local)
+                if d2 and d2[0] == 'stmt' and d2[3].rv.kind == 'use':
+                    op = d2[3].rv.ops[0]
+                else:
+                    break
         # usize arithmetic on plain locals (index counters) inside retain etc.
     return False
 
